@@ -102,6 +102,13 @@ def check_equiv(inp):
     for r, sizes in enumerate(rounds):
       st, _ = alg.apply(st, clients_for(r, sizes))
       got.append(jax.tree_util.tree_map(np.asarray, st.cluster_params[0]))
+  elif which == 'mimelite_steps':
+    # batching given by a step count (num_epochs=None, num_steps=K): the same K local steps as FedAvg, also for clients
+    # with fewer than K batches
+    base = optimizers.sgd(0.05)
+    hps = cds.ShuffleRepeatBatchHParams(batch_size=2, num_epochs=None, num_steps=4, seed=4)
+    ref = run(fed_avg.federated_averaging(grad_fn, base, optimizers.sgd(1.0), hps), rounds)
+    got = run(mime_lite.mime_lite(pel, base, hps, php, 1.0), rounds)
   elif which == 'mimelite':
     base = optimizers.sgd(0.05)
     ref = run(fed_avg.federated_averaging(grad_fn, base, optimizers.sgd(1.0), hp), rounds)
@@ -194,6 +201,7 @@ def sweep_equiv(tier, seed):
   yield dict(which='hyp1', copt='sgd', rounds=R)
   yield dict(which='hyp1', copt='momentum', rounds=R)
   yield dict(which='hyp1_reg', copt='sgd', rounds=R)
+  yield dict(which='mimelite_steps', copt='sgd', rounds=[[3, 5], [1, 9, 2]])
   yield dict(which='fedprox0', copt='sgd', rounds=R, sweep=True)
   yield dict(which='hyp1_drop', copt='momentum', rounds=[[1, 4], [3, 1, 1], [5, 2]])
   yield dict(which='mimelite', copt='sgd', rounds=R)
